@@ -215,28 +215,19 @@ func (fi *File) Mode() (os.FileMode, error) {
 }
 
 func (fi *File) SetMode(mode os.FileMode) error {
-	nd, err := fi.GetNode()
-	if err != nil {
-		return err
-	}
-
-	fsn, err := ft.ExtractFSNode(nd)
-	if err != nil {
-		if errors.Is(err, ft.ErrNotProtoNode) {
-			// Wrap raw node in protonode.
-			data := nd.RawData()
-			return fi.setNodeData(ft.FilePBDataWithStat(data, uint64(len(data)), mode, time.Time{}))
+	return fi.updateNodeData(func(nd ipld.Node) ([]byte, error) {
+		fsn, err := ft.ExtractFSNode(nd)
+		if err != nil {
+			if errors.Is(err, ft.ErrNotProtoNode) {
+				// Wrap raw node in protonode.
+				data := nd.RawData()
+				return ft.FilePBDataWithStat(data, uint64(len(data)), mode, time.Time{}), nil
+			}
+			return nil, err
 		}
-		return err
-	}
-
-	fsn.SetMode(mode)
-	data, err := fsn.GetBytes()
-	if err != nil {
-		return err
-	}
-
-	return fi.setNodeData(data)
+		fsn.SetMode(mode)
+		return fsn.GetBytes()
+	})
 }
 
 // ModTime returns the files' last modification time.
@@ -256,45 +247,51 @@ func (fi *File) ModTime() (time.Time, error) {
 
 // SetModTime sets the files' last modification time.
 func (fi *File) SetModTime(ts time.Time) error {
-	nd, err := fi.GetNode()
-	if err != nil {
-		return err
-	}
-
-	fsn, err := ft.ExtractFSNode(nd)
-	if err != nil {
-		if errors.Is(err, ft.ErrNotProtoNode) {
-			// Wrap raw node in protonode.
-			data := nd.RawData()
-			return fi.setNodeData(ft.FilePBDataWithStat(data, uint64(len(data)), 0, ts))
+	return fi.updateNodeData(func(nd ipld.Node) ([]byte, error) {
+		fsn, err := ft.ExtractFSNode(nd)
+		if err != nil {
+			if errors.Is(err, ft.ErrNotProtoNode) {
+				// Wrap raw node in protonode.
+				data := nd.RawData()
+				return ft.FilePBDataWithStat(data, uint64(len(data)), 0, ts), nil
+			}
+			return nil, err
 		}
-		return err
-	}
-
-	fsn.SetModTime(ts)
-	data, err := fsn.GetBytes()
-	if err != nil {
-		return err
-	}
-
-	return fi.setNodeData(data)
+		fsn.SetModTime(ts)
+		return fsn.GetBytes()
+	})
 }
 
-func (fi *File) setNodeData(data []byte) error {
+// updateNodeData replaces the file's node by one whose UnixFS data is computed
+// by newData from the current node, and updates the entry in the parent.
+//
+// The node is read, rebuilt and replaced inside a single nodeLock critical
+// section. Reading it beforehand (with GetNode) is not enough: a descriptor
+// flushed between that read and the assignment would be overwritten by a node
+// built from the stale copy, and the flushed data would be lost.
+func (fi *File) updateNodeData(newData func(ipld.Node) ([]byte, error)) error {
+	fi.nodeLock.Lock()
+	cur := fi.node
+	data, err := newData(cur)
+	if err != nil {
+		fi.nodeLock.Unlock()
+		return err
+	}
 	nd := dag.NodeWithData(data)
 
 	// Preserve the previous node's links (file content blocks) and
 	// CidBuilder. Without this, the new node would have the updated
 	// metadata (mode, mtime) but no content.
-	if oldNode, ok := fi.node.(*dag.ProtoNode); ok {
+	if oldNode, ok := cur.(*dag.ProtoNode); ok {
 		nd.SetLinks(oldNode.Links())
 		if builder := oldNode.CidBuilder(); builder != nil {
 			nd.SetCidBuilder(builder)
 		}
 	}
 
-	err := fi.dagService.Add(context.TODO(), nd)
+	err = fi.dagService.Add(context.TODO(), nd)
 	if err != nil {
+		fi.nodeLock.Unlock()
 		return err
 	}
 
@@ -305,10 +302,9 @@ func (fi *File) setNodeData(data []byte) error {
 		}
 	}
 
-	fi.nodeLock.Lock()
 	fi.node = nd
 	parent := fi.parent
 	name := fi.name
 	fi.nodeLock.Unlock()
-	return parent.updateChildEntry(child{name, fi.node})
+	return parent.updateChildEntry(child{name, nd})
 }
